@@ -891,6 +891,63 @@ func runAsyncJoin(c *core.Ctx) {
 			info := f.Pkg.Info
 			g := e.Graph(f)
 			gos := g.FindAtoms(func(a ast.Node) bool { _, ok := a.(*ast.GoStmt); return ok })
+			// a locally made channel that is returned must be signalled by this method (directly or in a goroutine it starts):
+			// otherwise the driver waits for it forever
+			madeChans := map[types.Object]ast.Node{}
+			g.AllAtoms(func(a ast.Node) {
+				if as, ok := a.(*ast.AssignStmt); ok && len(as.Lhs) == 1 && len(as.Rhs) == 1 {
+					if call, ok := an.Unparen(as.Rhs[0]).(*ast.CallExpr); ok && an.IsBuiltin(info, call, "make") {
+						if _, isChan := info.TypeOf(as.Lhs[0]).Underlying().(*types.Chan); isChan {
+							if o := an.ObjOf(info, as.Lhs[0]); o != nil {
+								madeChans[o] = as
+							}
+						}
+					}
+				}
+			})
+			for _, r := range g.FindAtoms(func(a ast.Node) bool { _, ok := a.(*ast.ReturnStmt); return ok }) {
+				rs := r.(*ast.ReturnStmt)
+				if len(rs.Results) != 1 {
+					continue
+				}
+				var o types.Object = an.ObjOf(info, rs.Results[0])
+				if o == nil || madeChans[o] == nil {
+					// a channel kept in a field of the resource
+					fv := an.SelectedField(info, rs.Results[0])
+					if fv == nil {
+						continue
+					}
+					if _, isChan := fv.Type().Underlying().(*types.Chan); !isChan {
+						continue
+					}
+					o = fv
+				}
+				same := func(x ast.Expr) bool {
+					if an.ObjOf(info, x) == o {
+						return true
+					}
+					if fv := an.SelectedField(info, x); fv != nil && types.Object(fv) == o {
+						return true
+					}
+					return false
+				}
+				signalled := false
+				ast.Inspect(f.Body(), func(k ast.Node) bool {
+					switch x := k.(type) {
+					case *ast.SendStmt:
+						if same(x.Chan) {
+							signalled = true
+						}
+					case *ast.CallExpr:
+						if an.IsBuiltin(info, x, "close") && len(x.Args) == 1 && same(x.Args[0]) {
+							signalled = true
+						}
+					}
+					return true
+				})
+				c.Check(signalled, fmt.Sprintf("%s.%s:returned-channel-signalled(%s)", tk, m, o.Name()), rs.Pos(), "the channel made and returned here is sent to (or closed) by this method or a goroutine it starts",
+					fmt.Sprintf("%s.%s returns a channel it created but nothing in the method ever sends on or closes it: the driver waits for this resource forever", tk, m))
+			}
 			// also goroutines started inside nested blocks are atoms of this graph; nested literals are not descended
 			for i, gs := range gos {
 				key := fmt.Sprintf("%s.%s:go#%d", tk, m, i+1)
